@@ -4,7 +4,7 @@ from .printer import COMMON, SIG1
 GROUP = {
     'name': 'PrinterAdd',
     'imports': ['Cellml.Generated.Code.Printer'],
-    'header': 'open C11 Cellml.Gen.Printer',
+    'header': 'open Cellml.Tie.PPrinter\nopen C11 Cellml.Gen.Printer',
     'patterns': COMMON,
     'functions': [
         {'file': 'cellmlmanip/printer.py', 'func': 'Printer._print_Add', 'lean_name': 'printAdd', 'signature': SIG1,
